@@ -10,7 +10,7 @@ git -C /repo worktree add -q --detach "$wt" HEAD || exit 3
 cleanup() { git -C /repo worktree remove --force "$wt" >/dev/null 2>&1; rm -rf "$wt"; }
 trap cleanup EXIT
 log=/tmp/confirm/$name.log; : > $log
-( cd "$demo" && sh ./run.sh "$wt" ) >>$log 2>&1; clean_rc=$?
+( cd "$demo" && bash ./run.sh "$wt" ) >>$log 2>&1; clean_rc=$?
 ( cd "$wt" && git checkout -q -- . && git clean -fdq )
 ( cd "$wt" && git apply "$patch" ) >>$log 2>&1; apply_rc=$?
 ( cd "$wt" && go1.26.8 build ./... ) >>$log 2>&1; build_rc=$?
@@ -21,5 +21,5 @@ for attempt in 1 2 3; do
   [ $tests_rc -eq 0 ] && break
   # the suite has timing-sensitive tests (worker.TestRunWithConcurrentShutdown, dag.TestNoDoubleCancel): retry
 done
-( cd "$demo" && sh ./run.sh "$wt" ) >>$log 2>&1; patched_rc=$?
+( cd "$demo" && bash ./run.sh "$wt" ) >>$log 2>&1; patched_rc=$?
 echo "{\"seed\":\"$name\",\"demo_on_clean_rc\":$clean_rc,\"apply_rc\":$apply_rc,\"build_rc\":$build_rc,\"existing_tests_rc\":$tests_rc,\"demo_on_patched_rc\":$patched_rc,\"base\":\"$(git -C /repo rev-parse --short HEAD)\"}"
